@@ -17,6 +17,12 @@ Engine E1 (smallscope).  Enumerated (see jv/c13_cat.py):
     descriptor added under a new name, descriptor replaced by a plain value} x first query
     {complete `R.`, infer/goto/help `R.att`}: ask, mutate the class, ask everything again with
     new Interpreters; same oracles on the state after the mutation;
+  * stdlib containers whose item access can run user code or change the container
+    (defaultdict with a user factory object / function, OrderedDict, deque, ChainMap over a
+    dict subclass, UserDict/UserList subclasses, mappingproxy over a dict subclass, dict
+    subclass with __missing__) reached directly, as an attribute and nested in plain
+    containers x present/absent literal subscripts, iteration, len, not; additional oracle:
+    the content of every live container is the same before and after each safe-mode query;
   * container graph: dict/list/tuple nested two deep, instances, SimpleNamespace holding builtin
     values, functions, classes, instances of type()-created classes: every attribute/index
     path up to the tier's length.
@@ -38,7 +44,9 @@ from .. import c13_cat as cat
 ID = 'C13'
 BUDGET = {'quick': 900, 'thorough': 3600}
 
-JUDGED = cat.JUDGED_KINDS
+# __missing__ is reached through the item access of a (builtin) dict type: it is the user's
+# item-access code, judged like __getitem__ (stdlib-container family)
+JUDGED = cat.JUDGED_KINDS + ('__missing__',)
 
 # --------------------------------------------------------------------------------------------
 # extra graphs: builtin-container subclasses (type(obj) is not a builtin container any more)
@@ -112,6 +120,180 @@ ssub = SSub('ab')
 box = [lsub, tsub, dsub, ssub]
 unk = None
 '''
+
+
+# --------------------------------------------------------------------------------------------
+# stdlib containers whose item access can run user code or change the container
+# --------------------------------------------------------------------------------------------
+STD_SOURCE = cat.PRELUDE + '''
+import collections as _c
+
+
+class Factory:
+    def __call__(self):
+        _hit('__call__/Factory')
+        return Leaf()
+
+
+def ffn():
+    _hit('__call__/ffn')
+    return Leaf()
+
+
+class CDict(dict):
+    def __getitem__(self, key):
+        _hit('__getitem__/CDict')
+        return dict.__getitem__(self, key)
+
+
+class MDict(dict):
+    def __missing__(self, key):
+        _hit('__missing__/MDict')
+        return Leaf()
+
+
+class UD(_c.UserDict):
+    def __getitem__(self, key):
+        _hit('__getitem__/UD')
+        return self.data[key]
+
+
+class UL(_c.UserList):
+    def __getitem__(self, index):
+        _hit('__getitem__/UL')
+        return self.data[index]
+
+
+class Holder:
+    pass
+
+
+def _items():
+    return [('k', Leaf()), (0, 's')]
+
+
+_back = CDict(_items())
+ddobj = _c.defaultdict(Factory(), _items())
+ddfn = _c.defaultdict(ffn, _items())
+od = _c.OrderedDict(_items())
+dq = _c.deque([Leaf(), 's'])
+cm = _c.ChainMap(CDict(_items()))
+ud = UD(dict(_items()))
+ul = UL([Leaf(), 's'])
+mp = _types.MappingProxyType(_back)
+md = MDict(_items())
+_ALL = dict(ddobj=ddobj, ddfn=ddfn, od=od, dq=dq, cm=cm, ud=ud, ul=ul, mp=mp, md=md)
+holder = Holder()
+for _n, _o in _ALL.items():
+    setattr(holder, _n, _o)
+nest = {'d': dict(_ALL), 'l': list(_ALL.values())}
+
+
+def _raw(o):
+    """The storage behind a container, reached with builtin methods only."""
+    if isinstance(o, _c.ChainMap):
+        return o.maps[0]
+    if isinstance(o, (_c.UserDict, _c.UserList)):
+        return o.data
+    if isinstance(o, _types.MappingProxyType):
+        return _back
+    return o
+
+
+def _state():
+    out = {}
+    for n, o in _ALL.items():
+        r = _raw(o)
+        if isinstance(r, dict):
+            out[n] = sorted(repr(k) for k in dict.keys(r))
+        else:
+            out[n] = [type(x).__name__ for x in (list.__iter__(r) if isinstance(r, list)
+                                                 else _c.deque.__iter__(r))]
+    return out
+
+
+def _restore():
+    for n, o in _ALL.items():
+        r = _raw(o)
+        if isinstance(r, dict):
+            for k in [k for k in dict.keys(r) if k not in ('k', 0)]:
+                dict.__delitem__(r, k)
+'''
+STD_NAMES = ['ddobj', 'ddfn', 'od', 'dq', 'cm', 'ud', 'ul', 'mp', 'md']
+STD_SUBSCRIPTS = [('k', "['k']"), ('0', '[0]'), ('absent', "['absent']"), ('7', '[7]'),
+                  ('-1', '[-1]'), ('unk', '[unk2_]')]
+STD_OTHER = [('self', '{T}'), ('list0', 'list({T})[0]'), ('len', 'len({T})'),
+             ('not', '(not {T})'), ('absent.leafattr', "{T}['absent'].leafattr")]
+STD_STMTS = [('for', 'for v_ in {T}:\n    pass\n'), ('unpack', 'v_, w_ = {T}\n'),
+             ('assign-absent', "v_ = {T}['absent']\n"), ('assign-7', 'v_ = {T}[7]\n')]
+
+
+def std_queries(name, variant):
+    """-> [(query, run it in unsafe mode too?)] for one stdlib container."""
+    roots = [('direct', name), ('attr', 'holder.' + name)]
+    if variant == 'exec':
+        roots += [('ind', "nest['d']['%s']" % name),
+                  ('inl', "nest['l'][%d]" % STD_NAMES.index(name))]
+    out = []
+
+    def add(qid, code, method, live=False):
+        out.append(({'id': qid, 'code': code, 'method': method, 'kw': {}, 'deep': False,
+                     'head': False}, live))
+
+    for rid, T in roots:
+        for eid, suffix in STD_SUBSCRIPTS:
+            e = T + suffix
+            add('%s|%s|complete' % (rid, eid), e + '.', 'complete', live=rid == 'direct')
+            add('%s|%s|infer' % (rid, eid), e, 'infer')
+            if eid in ('absent', '7'):
+                add('%s|%s|goto' % (rid, eid), 'v_ = %s\nv_' % e, 'goto')
+                add('%s|%s|help' % (rid, eid), 'v_ = %s\nv_' % e, 'help')
+        for eid, fmt in STD_OTHER:
+            e = fmt.format(T=T)
+            add('%s|%s|complete' % (rid, eid), e + '.', 'complete')
+            add('%s|%s|infer' % (rid, eid), e, 'infer')
+        for sid, fmt in STD_STMTS:
+            code = fmt.format(T=T)
+            add('%s|s:%s|complete' % (rid, sid), code + 'v_.', 'complete')
+            add('%s|s:%s|infer' % (rid, sid), code + 'v_', 'infer')
+    return out
+
+
+def _work_std(task, fails, stats, only):
+    """One stdlib container: counters as before + the live containers keep their content."""
+    graph = cat.build(STD_SOURCE, task['variant'],
+                      os.path.join(boot.scratch_root(), 'c13mods-%d' % os.getpid()))
+    ns = graph.namespace()
+    mod = graph.module
+    name = task['name']
+    qs = std_queries(name, task['variant'])
+    interesting = {'leafattr', 'keys', 'append'}
+    for unsafe in (False, True):
+        for q, live in qs:
+            if unsafe and (not live or only):
+                continue        # unsafe mode: only to show that the routes are live
+            if only and [q['id'], unsafe] != list(only):
+                continue
+            before = mod._state()
+            oracle = None
+            if q['id'] == 'direct|self|complete':
+                oracle = _oracle_for('dir', name, ns)
+            _check(graph, ns, q, unsafe, interesting, fails, stats, oracle)
+            after = mod._state()
+            if after != before:
+                changed = sorted(n for n in after if after[n] != before[n])
+                mod._restore()
+                _bump(stats['mutations_unsafe' if unsafe else 'mutations_safe'], changed[0])
+                if not unsafe:
+                    fails.append({'site': 'state-mutated:%s' % '+'.join(changed), 'q': q,
+                                  'unsafe': False,
+                                  'detail': {'code': q['code'], 'method': q['method'],
+                                             'mode': 'safe',
+                                             'before': {n: before[n] for n in changed},
+                                             'after': {n: after[n] for n in changed},
+                                             'expected': 'the live namespace objects keep '
+                                                         'their content in safe mode'}})
+    return len(qs)
 
 
 # --------------------------------------------------------------------------------------------
@@ -755,7 +937,7 @@ def _check(graph, ns, q, unsafe, interesting, fails, stats, oracle=None):
 def _new_stats():
     return {'queries': 0, 'by_method': {}, 'touch_excs': {}, 'other_excs': {}, 'hits_safe': {},
             'hits_unsafe': {}, 'dir_checks': 0, 'class_checks': 0, 'classes': {},
-            'plain_paths': 0, 'histories': 0}
+            'plain_paths': 0, 'histories': 0, 'mutations_safe': {}, 'mutations_unsafe': {}}
 
 
 def _graph_for(task):
@@ -801,6 +983,9 @@ def _work(task):
     fails = []
     stats = _new_stats()
     only = task.get('only')     # replay: a single (query id, unsafe)
+    if task['family'] == 'std':
+        n = _work_std(task, fails, stats, only)
+        return {'fails': fails, 'stats': stats, 'nq': n, 'npq': 0}
     if task['family'] == 'hist':
         n = _work_hist(task, fails, stats, only)
         return {'fails': fails, 'stats': stats, 'nq': n * (1 + len(_hist_step3('obj'))),
@@ -895,6 +1080,14 @@ def _levels(tier):
                    'x {%s}' % ','.join(hist_variants),
                    [{'family': 'hist', 'tier': tier, 'feature': f, 'place': pl, 'variant': v}
                     for v in hist_variants for f in HIST_FEATURES for pl in HIST_PLACES]))
+    levels.append(('stdlib containers (defaultdict x2, OrderedDict, deque, ChainMap, UserDict, '
+                   'UserList, mappingproxy, __missing__) x {exec%s}'
+                   % (',file' if tier == 'thorough' else '; file for the user-factory ones'),
+                   [{'family': 'std', 'tier': tier, 'name': n, 'variant': v}
+                    for v in fe for n in STD_NAMES
+                    # findable classes make every query ~4x dearer (collections is analysed
+                    # statically): quick keeps 'file' for the containers with a user factory
+                    if tier == 'thorough' or v == 'exec' or n in ('ddobj', 'ddfn', 'md')]))
     side = ['obj', 'C', 'box0', 'box1']
     if tier == 'quick':
         levels.append(('singles x {file,exec}: relevant expressions, battery on heads',
@@ -938,6 +1131,8 @@ def _task_id(t):
         return '%s|%s' % (t['shape'], t['variant'])
     if t['family'] == 'sub':
         return 'sub|%s' % t['variant']
+    if t['family'] == 'std':
+        return 'std|%s|%s' % (t['name'], t['variant'])
     if t['family'] == 'hist':
         return 'hist|%s@%s|%s' % (t['feature'], t['place'], t['variant'])
     return 'cont|%s' % t['variant']
@@ -994,6 +1189,8 @@ def run(ctx):
                 '(reported name, kind) values confirmed by the infer oracle + distinct query '
                 'methods exercised',
         'graphs': graphs, 'histories': agg['histories'],
+        'live_container_mutations_safe_mode': agg['mutations_safe'],
+        'live_container_mutations_unsafe_mode': agg['mutations_unsafe'],
         'levels_completed': done, 'exhaustive': exhaustive, 'samples': samples,
         'queries_by_method': agg['by_method'],
         'dir_oracle_checks': agg['dir_checks'], 'class_oracle_checks': agg['class_checks'],
@@ -1006,6 +1203,10 @@ def run(ctx):
     })
     ctx.assumptions += [
         'configuration `stubs`: jedi from $JV_REPO with the vendored typeshed stdlib',
+        'stdlib-container family: __missing__ and the call of a default_factory (object or '
+        'function) are judged like __getitem__/__call__; a safe-mode query that changes the '
+        'content of a live container is a violation (content compared through builtin methods '
+        'before and after every query; restored after a change so cases stay independent)',
         'judged counters: property getter, __get__ of user descriptors, __getitem__, __iter__, '
         '__next__, __call__, __len__, __bool__; __getattr__/__getattribute__/__dir__/__set__ '
         'are counted but not judged (the property does not list them)',
